@@ -42,6 +42,13 @@ parse.docstring) | argparse (an argparse-building function handed to parse.argpa
                                ann:none; several live points per process (gen forces a share), next to each other and
                                far apart, so that anything consumed / cached by the first signature read shows
 
+  choices:<n>|choices:repeated|choices-shape:tuple|list|set|action:append|argument:repeated
+                               argparse functions whose arguments restrict their values: `choices=` written as a tuple,
+                               a list or a set display, with 1..n members, and (choices:repeated; gen forces a share)
+                               with a member listed MORE THAN ONCE (at least three distinct ones): the Literal[...] /
+                               Union[...] the parser builds from them must name them in source order in every process;
+                               `action='append'`; the same `--name` added twice in one function
+
 The sequences are drawn so that every kind occurs several times per process and empty / failing / multi-announcement
 points sit between ordinary ones."""
 
@@ -266,19 +273,57 @@ def gen_class(rng, ps, tags, style, docstmt=None, inner=None):
     return "\n".join(lines) + "\n"
 
 
-def _init(rng, ps, docstmt):
-    """an __init__ (to be merged) at class-body indentation"""
-    lines = ["    def __init__(%s):" % _sig(rng, ps, first="self")]
+def _init(rng, ps, docstmt, receiver="self", name="__init__", decorators=()):
+    """an __init__ (to be merged) at class-body indentation.  receiver: what the method calls its instance argument
+    (`self` by convention; any name is legal Python), or None for a method without one (a @staticmethod, say)"""
+    lines = ["    " + d for d in decorators] + ["    def %s(%s):" % (name, _sig(rng, ps, first=receiver))]
     if docstmt:
         lines.append(docstmt)
     for p in ps[:2]:
-        lines.append("        self.%s = %s" % (p["name"], p["name"]))
-    if len(lines) == 1 + bool(docstmt) and not ps[:2]:
+        lines.append("        %s%s = %s" % (receiver + "." if receiver else "_", p["name"], p["name"]))
+    if len(lines) == 1 + len(decorators) + bool(docstmt) and not ps[:2]:
         lines.append("        pass")
     return "\n".join(lines)
 
 
-def gen_argparse(rng, ps, tags, docstmt=None):
+CHOICE_POOLS = [
+    ["train", "validation", "test", "holdout", "dev"], ["np", "tf", "torch", "jax"], ["adam", "sgd", "rmsprop", "adagrad", "lamb"],
+    ["mnist", "cifar10", "cifar100", "imagenet"], ["relu", "tanh", "sigmoid", "gelu", "swish", "elu"], ["a", "b", "c"],
+    ["low", "medium", "high"], ["0", "1", "2", "3"], ["yes", "no", "auto"], ["float16", "float32", "float64", "bfloat16"],
+]
+NUM_CHOICE_POOLS = {"int": ["1", "2", "4", "8", "16", "32"], "float": ["0.1", "0.5", "0.9", "1.0", "2.5"]}
+
+
+def gen_choices(rng, typ, force_repeat=False):
+    """(source of a `choices=` collection, stratum tags).  The members are written as a tuple, a list or a set display
+    (argparse takes any container); with `repeat`, one or two members are listed more than once (argparse is happy with
+    that; a set display holds each once anyway): whatever de-duplicates them must keep the order of first appearance.
+    At least three distinct members whenever something is repeated, so that an order exists to be lost."""
+    if typ in NUM_CHOICE_POOLS and rng.random() < 0.5:
+        pool, q = NUM_CHOICE_POOLS[typ], (lambda s: s)
+    else:
+        pool, q = rng.choice(CHOICE_POOLS), repr
+    repeat = force_repeat or rng.random() < 0.35
+    k = rng.randint(3 if repeat else 1, len(pool))
+    members = rng.sample(pool, k)
+    tags = ["choices:%d" % min(k, 4)]
+    if repeat:
+        for _ in range(rng.choice([1, 1, 2])):
+            members.insert(rng.randint(0, len(members)), rng.choice(members))
+        tags.append("choices:repeated")
+    shape = rng.choice(["tuple", "tuple", "list", "set"])
+    tags.append("choices-shape:" + shape)
+    body = ", ".join(q(m) for m in members)
+    if shape == "tuple":
+        return "(%s%s)" % (body, "," if len(members) == 1 else ""), tags
+    return ("[%s]" if shape == "list" else "{%s}") % body, tags
+
+
+def gen_argparse(rng, ps, tags, docstmt=None, choices=0.0, force_repeat=False):
+    """choices: probability that an argument of the parser restricts its values (`choices=`, see gen_choices), appends
+    (`action='append'`), or is added a second time further down (argparse objects at run time, the text is a legal
+    module all the same); 0.0 (the default) draws nothing extra.  force_repeat: the first `choices=` of the function
+    lists a member twice."""
     lines = ["def set_cli_args(argument_parser):"]
     if docstmt is None:
         docstmt = _quote("Set CLI arguments\n\n:param argument_parser: argument parser\n:type argument_parser: ```ArgumentParser```\n\n"
@@ -286,17 +331,35 @@ def gen_argparse(rng, ps, tags, docstmt=None):
     if docstmt:
         lines.append(docstmt)
     lines.append("    argument_parser.description = %r" % rng.choice(SUMMARIES).split("\n")[0])
+    added = []
     for p in ps:
         kws = ["'--%s'" % p["name"]]
         if p["typ"] != "str" or rng.random() < 0.3:
             kws.append("type=%s" % p["typ"])
+        if choices and p["typ"] != "bool" and (force_repeat or rng.random() < choices):
+            src, ctags = gen_choices(rng, p["typ"], force_repeat=force_repeat)
+            force_repeat = False
+            kws.insert(rng.randint(1, len(kws)), "choices=" + src)
+            tags.extend(t for t in ctags if t not in tags)
         kws.append("help=%r" % (p["prose"] + p["sentence"]))
         r = rng.random()
         if p["how"] in ("1", "many") and r < 0.7:
             kws.append("default=%s" % (p["value"] if p.get("value") and rng.random() < 0.8 else rng.choice(VALUES[p["typ"]])))
         elif r < 0.3:
             kws.append("required=True")
+        if choices and rng.random() < choices / 4:
+            kws.append("action='append'")
+            if "action:append" not in tags:
+                tags.append("action:append")
         lines.append("    argument_parser.add_argument(%s)" % ", ".join(kws))
+        added.append(lines[-1])
+    if choices and added and rng.random() < choices / 3:
+        # the same argument once more (a copy-and-paste slip): the later call's keywords update the earlier entry
+        again = rng.choice(added)
+        if rng.random() < 0.5:
+            again = again.replace("required=True", "required=False")
+        lines.append(again)
+        tags.append("argument:repeated")
     lines.append("    return argument_parser")
     return "\n".join(lines) + "\n"
 
@@ -510,14 +573,17 @@ def gen_live(rng, what=None):
 
 
 def gen_point(rng, kind=None, force=None):
-    """one point of the new strata.  force: None | many | fails | degenerate | foreign"""
+    """one point of the new strata.  force: None | many | fails | degenerate | foreign | choices (an argparse function
+    one of whose arguments lists a choice twice)"""
     if force == "foreign":
         return gen_foreign(rng, kind)
+    if force == "choices":
+        kind = "argparse"
     kind = kind or rng.choice(["function", "function", "class", "class", "docstring", "argparse"])
     style = rng.choice(["rest", "google", "numpydoc"])
     if force == "fails" and rng.random() < 0.7:
         style = rng.choice(["google", "numpydoc"])
-    ps, tags = gen_params(rng, allow_fail=True, force=force if force in ("many", "fails") else None)
+    ps, tags = gen_params(rng, allow_fail=(force != "choices"), force=force if force in ("many", "fails") else None)
     tags = ["style:" + style] + tags
     if force == "degenerate" or (force is None and rng.random() < 0.15):
         tag, tmpl = _degenerate(rng, DEGENERATE)
@@ -550,7 +616,7 @@ def gen_point(rng, kind=None, force=None):
         return {"kind": kind, "src": gen_function(rng, ps, tags, style), "tags": tags}
     if kind == "argparse":
         tags = [t for t in tags if not t.startswith("style:")]
-        return {"kind": kind, "src": gen_argparse(rng, ps, tags), "tags": tags}
+        return {"kind": kind, "src": gen_argparse(rng, ps, tags, choices=0.3, force_repeat=(force == "choices")), "tags": tags}
     inner = None
     if rng.random() < 0.35:
         ips, itags = gen_params(rng, allow_fail=False)
@@ -584,6 +650,8 @@ def gen(rng, n, filler=None):
     plan += ["foreign"] * max(2, n // 10) + ["xtype"] * max(2, n // 16)
     # and live objects (imported modules): one per 12, some of them in pairs next to each other
     plan += ["live"] * max(4, n // 12) + ["live2"] * max(1, n // 80)
+    # and argparse functions with a `choices=` collection that repeats a member: one per 25
+    plan += ["choices"] * max(2, n // 25)
     rng.shuffle(plan)
     for k, force in enumerate(plan):
         if force in ("live", "live2"):
